@@ -60,26 +60,26 @@ func VerifRunLengthRuns() {
 	verifRoundTrip([]string{RunLength}, x)
 }
 
-// VerifASCII85RoundTrip: ASCII85 alone and combined with ASCIIHex / RunLength (before or after), in the
-// integer encoding (base-85 digit arithmetic is multiplication/division by constants).
+// VerifASCII85RoundTrip: ASCII85 alone on 0..N fully symbolic bytes, in the integer encoding
+// (base-85 digit arithmetic is multiplication/division by constants).
 func VerifASCII85RoundTrip() {
+	n := vp.IntRange(0, vp.Bound("N"))
+	verifRoundTrip([]string{ASCII85}, vp.Bytes(n))
+}
+
+// VerifASCII85Pipelines: ASCII85 combined with ASCIIHex / RunLength / itself.
+func VerifASCII85Pipelines() {
 	var names []string
-	switch vp.Choice(5) {
+	switch vp.Choice(4) {
 	case 0:
-		names = []string{ASCII85}
-	case 1:
 		names = []string{ASCII85, ASCIIHex}
-	case 2:
+	case 1:
 		names = []string{ASCIIHex, ASCII85}
-	case 3:
+	case 2:
 		names = []string{RunLength, ASCII85}
-	case 4:
+	case 3:
 		names = []string{ASCII85, ASCII85}
 	}
 	n := vp.IntRange(0, vp.Bound("N"))
-	if len(names) == 1 {
-		n = vp.IntRange(0, vp.Bound("N")+1)
-	}
-	x := vp.Bytes(n)
-	verifRoundTrip(names, x)
+	verifRoundTrip(names, vp.Bytes(n))
 }
